@@ -14,7 +14,7 @@ import (
 // evaluated (fault_enumeration).
 
 func init() {
-	drivers["C05"] = &driver{cases: tierN(40, 600), run: runC05}
+	drivers["C05"] = &driver{cases: tierN(40, 1500), run: runC05}
 }
 
 // try runs f and reports whether it recorded a violation (which is removed).
